@@ -738,9 +738,7 @@ func propC10() *Prop {
 				js = append(js, job(fmt.Sprintf("C10a/bearer[Authorization of %d bytes]", l), "adminapi", "VerifC10Bearer", l))
 			}
 			shapes := [][2]int64{{0, 0}, {1, 0}, {0, 1}, {1, 1}, {2, 0}, {0, 2}}
-			if tier == "thorough" {
-				shapes = append(shapes, [2]int64{2, 1}, [2]int64{1, 2}, [2]int64{2, 2})
-			}
+			// (lists of 2+1 / 1+2 / 2+2 entries: 1.6e5 .. 4e6 paths, 45 minutes and more - not registered)
 			for _, sh := range shapes {
 				j := job(fmt.Sprintf("C10b/filter-logic[allow=%d,deny=%d]", sh[0], sh[1]), "adminapi", "VerifC10Filter", sh[0], sh[1], 1)
 				j.MaxPaths = 3000000
@@ -757,7 +755,7 @@ func propC10() *Prop {
 		Assumptions: append([]string{"http.ServeMux is modelled as exact-path dispatch over the registered patterns (Helios registers only exact, slash-free-suffix patterns); encoding/json Decode/Encode are structure-only models (decode fills the target struct from the concrete JSON text; encode writes an opaque body)", "net.ParseIP / ParseCIDR on concrete text are evaluated natively; a symbolic peer is a marker string that the ParseIP model resolves to symbolic address bytes of the documented shape (16-byte IPv4-in-IPv6, 16-byte IPv6, or nil); IPNet.Contains and IP.To4 run from their real SSA bodies", "networks: IPv4 prefixes {0,8,24,31,32}, IPv6 prefixes {0,64,127,128}, arbitrary base bytes (IPv6: six symbolic bytes, the rest zero); IPv4-mapped IPv6 network entries excluded (Go treats them as the embedded IPv4 network)", "the balancer behind the API is built by the real NewLoadBalancer", "net/netip values (if the code under test uses them) are concrete and evaluated by the real library through a reflective bridge"}, commonAssumptions...),
 		Bounds: map[string]string{
 			"quick":    "Authorization values of 0/6/7/9/10/11 arbitrary bytes (token is 3 bytes: the exact value has 10), present/absent, optional valid second value, 7 paths x 3 methods x 4 bodies; filter lists up to 2 entries in total; peers IPv4 / IPv6 / IPv4-mapped / unparsable",
-			"thorough": "more Authorization lengths; lists up to 2+2",
+			"thorough": "more Authorization lengths (0..14 bytes); same lists",
 		},
 		Outside: []string{"full 16 symbolic bytes for IPv6 (sparse bytes only)", "ServeMux pattern matching beyond exact paths", "JSON syntax"},
 	}
@@ -802,7 +800,7 @@ func propC20() *Prop {
 		ID: "C20", Title: "WebSocket tunnelling and connection-pool invariants - pool and Hijack pass-through",
 		Jobs: func(tier string) []*sym.Job {
 			var js []*sym.Job
-			for k := int64(2); k <= tierPick(tier, 4, 5); k++ {
+			for k := int64(2); k <= 4; k++ { // k=5: ~7e4 paths, half an hour
 				j := lbJob(fmt.Sprintf("C20a/pool-histories[k=%d]", k), "VerifC20Pool", k)
 				j.MaxPaths = 3000000
 				js = append(js, j)
@@ -821,7 +819,7 @@ func propC20() *Prop {
 		Assumptions: append([]string{"claimed for the pool (Get/Put/Close/cleanup/Shutdown on the real WebSocketPool, built directly so that the cleanup goroutine is not started) and for Hijack reaching the connection through the balancer's writer and every plugin wrapper; the tunnel's byte relay is net/http/httputil over real sockets and is not encodable", "connections are stub objects with a closed flag and a ghost holder; max_idle 0..3, any idle_timeout 1ns..2^40ns, two backends"}, commonAssumptions...),
 		Bounds: map[string]string{
 			"quick":    "every history of <= 4 operations over {put (fresh or held), get, close, time passes (any amount), cleanup, shutdown}; Hijack through wrapper stacks of depth <= 3",
-			"thorough": "<= 5 operations",
+			"thorough": "same histories; concurrent pairs with <= 3 pre-emptions",
 		},
 		Outside: []string{"the WebSocket byte relay itself", "concurrent pool use (pairwise under C12)"},
 	}
@@ -910,7 +908,11 @@ func propC19() *Prop {
 					if n == 2 && ticks > tierPick(tier, 0, 1) {
 						continue
 					}
-					js = append(js, threadJob(lbJob(fmt.Sprintf("C19/health-check-goroutine-racing-Stop[N=%d,ticks<=%d]", n, ticks), "VerifC19Stop", 0, n, ticks), int(tierPick(tier, 2, 3))))
+					pre := 2 // three pre-emptions exceed 200000 schedules as soon as a tick or a second backend is involved
+					if tier == "thorough" && n == 1 && ticks == 0 {
+						pre = 3
+					}
+					js = append(js, threadJob(lbJob(fmt.Sprintf("C19/health-check-goroutine-racing-Stop[N=%d,ticks<=%d]", n, ticks), "VerifC19Stop", 0, n, ticks), pre))
 				}
 			}
 			js = append(js, threadJob(lbJob("C19/Stop-with-probe-in-flight-to-a-hung-backend[N=1]", "VerifC19Stop", 3, 1, 0), int(tierPick(tier, 2, 3))))
@@ -929,7 +931,7 @@ func propC19() *Prop {
 			return js
 		},
 		Assumptions: append([]string{"claimed for the balancer side only: LoadBalancer.Stop, the real health-check goroutine (startHealthChecks -> startActiveHealthChecks: initial round, ticker loop, probe goroutines; the ticker fires at most `ticks` times, at any point of the schedule, and a select with several ready cases picks any of them), and the WebSocket pool's Shutdown; http.Server.Shutdown, request draining, signals and the shutdown-timeout bound are net/http / OS and not encodable", "the real performHealthCheck runs; (*http.Client).Do is replaced by a backend model that counts the probe, yields and then refuses the connection, answers 200, or never answers (holds the probe until the request's context is done or the client's timeout fires); natively the real client dials a local test server that behaves the same way", "contexts are models: cancellation propagates to derived contexts; a deadline expires when virtual time reaches it, and virtual time passes only when every thread is blocked (it jumps to the earliest pending deadline); shutdown timeout 1..2 s, probe timeout 1 ms..3 s (ranges kept small so that a counterexample replays natively in real time)"}, commonAssumptions...),
-		Bounds:      map[string]string{"quick": "1-2 backends, 2 idle pooled connections, 2 top-level threads + probe goroutines, <= 2 pre-emptions", "thorough": "<= 3 pre-emptions"},
+		Bounds:      map[string]string{"quick": "1-2 backends, 2 idle pooled connections, 2 top-level threads + probe goroutines, <= 1 ticker firing, <= 2 pre-emptions", "thorough": "<= 2 ticker firings (1 with two backends); <= 3 pre-emptions for the tick-free races, Stop || Stop, the probe-in-flight and pool pairs, <= 2 where a ticker fires"},
 		Outside:     []string{"http.Server.Shutdown / in-flight client requests / SIGTERM handling", "more than 1 (quick) / 2 (thorough) ticker firings during shutdown"},
 	}
 }
